@@ -279,7 +279,7 @@ def oracle(res, case, sk, ops, impl, live, tmp, keypath):
                 try:
                     fresh.loads(doc, format=fmt, **opts)
                 except Exception as e:  # noqa
-                    d = first_tagged(sk, cfg) or (":feature-off" if feature_off(cfg) and type(e).__name__ == "ValidationError" else "")
+                    d = (":feature-off" if feature_off(cfg) and type(e).__name__ == "ValidationError" else "") or first_tagged(sk, cfg)
                     res.violate("C02:reload-raised" + (d or ""), "loading the saved document into a fresh configuration raised %s" % type(e).__name__,
                                 dict(where, error=str(e)[:200], document=repr(doc[:300])))
                     continue
